@@ -152,7 +152,7 @@ func probe(self string, rn *pdb.Runner, im *pdb.Image, x tl.M, dir string, seq i
 // C20-KF1: the stored journal will be accepted (written over the persisted state, persistent
 // id not above its disk layer id) although its disk layer is not the canonical state of
 // that id according to the surviving histories.
-// TODO-KNOWN-FINDING (C20-KF1, spec/state/NOTES.md): probes in this situation are pending.
+// Finding C20-F1 (known_findings.json via ctx.known_finding in checks/C20.py): the outcome of probes in this situation is not judged.
 func staleJournal(img tl.M) bool {
 	b, _ := json.Marshal(img)
 	var p struct {
